@@ -103,6 +103,32 @@ func (env *Env) evalCall(x *ast.CallExpr, st *State) Val {
 				a := env.eval(x.Args[0], st)
 				b := env.eval(x.Args[1], st)
 				return specBytesHasPrefix(env, nil, []Val{a, b}, st, x)
+			case "blocking":
+				// blocking(f): the function value f waits on a channel when called. For a
+				// function literal this is decided syntactically; otherwise it is an
+				// uninterpreted predicate of the function value.
+				fv := env.eval(x.Args[0], st)
+				c := env.c
+				pred := "fn_blocking_" + mangle(env.sortOf(fv.Ty))
+				if len(pred) > 100 {
+					pred = pred[:100]
+				}
+				c.decls.declFun(pred, []string{env.sortOf(fv.Ty)}, "Bool")
+				if fv.Fn != nil && fv.Fn.Lit != nil {
+					found := false
+					ast.Inspect(fv.Fn.Lit.Body, func(n ast.Node) bool {
+						if u, ok := n.(*ast.UnaryExpr); ok && u.Op == token.ARROW {
+							found = true
+						}
+						return true
+					})
+					if found {
+						st.assumeOnce(app(pred, fv.T))
+					} else {
+						st.assumeOnce(not(app(pred, fv.T)))
+					}
+				}
+				return boolVal(app(pred, fv.T))
 			case "same":
 				a := env.eval(x.Args[0], st)
 				b := env.eval(x.Args[1], st)
@@ -621,6 +647,7 @@ func (env *Env) callFunc(fobj *types.Func, recv *Val, args []Val, st *State, cal
 	if o := fobj.Origin(); o != nil {
 		full = o.FullName()
 	}
+	env.callHooks(fobj, recv, args, st, call)
 	// library / assumed contracts implemented natively
 	if spec, ok := stdSpecs[full]; ok {
 		return spec(env, recv, args, st, call)
@@ -1549,4 +1576,46 @@ func (c *Ctx) hasRealField(t types.Type, name string) bool {
 		}
 	}
 	return false
+}
+
+// callHooks: per-path call log, `order` and `atcall` clauses of the function under verification.
+func (env *Env) callHooks(fobj *types.Func, recv *Val, args []Val, st *State, call *ast.CallExpr) {
+	c := env.c
+	if env.contract || env.noSafety || c.inlineTag != "" || c.fi.Contract == nil {
+		st.calls = append(st.calls, fobj.Name())
+		return
+	}
+	con := c.fi.Contract
+	name := fobj.Name()
+	for _, od := range con.Orders {
+		if od[0] == name {
+			found := false
+			for _, p := range st.calls {
+				if p == od[1] {
+					found = true
+				}
+			}
+			goal := "false"
+			if found {
+				goal = "true"
+			}
+			c.addObl(st, fmt.Sprintf("order/%s-after-%s#%d", od[0], od[1], c.ordinal("order/"+od[0])), "order", goal, c.e.pos(call.Pos()),
+				fmt.Sprintf("every call of %s is preceded by a call of %s", od[0], od[1]), nil)
+		}
+	}
+	for k, ac := range con.AtCalls {
+		if ac.Callee != name {
+			continue
+		}
+		ie := c.invEnv(env, call.Pos(), nil)
+		for i, a := range args {
+			ie.bound[fmt.Sprintf("arg%d", i)] = a
+		}
+		if recv != nil {
+			ie.bound["recv_"] = *recv
+		}
+		g := ie.evalBool(ac.Clause.Expr, st)
+		c.addObl(st, fmt.Sprintf("atcall%d:%s#%d", c.ordinal("atcall/"+name), name, k), "atcall", g, c.e.pos(call.Pos()), "atcall "+name+": "+ac.Clause.Text, nil)
+	}
+	st.calls = append(st.calls, name)
 }
